@@ -2,7 +2,8 @@
    Model: C20/Model.v (ownership ledger of ValueStore / ValueMap::add / NotifiedValue::doParse; RefCountable/IntrusiveSharedPtr).
    Specification: C20/Spec.v (value semantics: a holder is empty or (representation, type, value); `sstep` is one line per operation).
    `final H M tys ops` = the model state after the history `ops` over H client holders, one ValueMap with M names, any client pointer pool. *)
-Require Import V.Lib.Base V.C20.Model V.C20.Inv V.C20.Spec V.C20.Typed V.C20.Client V.C20.Refcount V.C20.Final.
+Require Import V.Lib.Base V.Gen.Consts_C20 V.C20.Model V.C20.Inv V.C20.Spec V.C20.Typed V.C20.Client V.C20.Refcount V.C20.Bulk V.C20.Range V.C20.Final V.C20.Every V.C20.Fits.
+Require Import NArith.
 Local Open Scope Z_scope.
 
 (* c20_typed: after every history each holder (client holder or map entry) is empty or holds exactly the (type, value) that plain
@@ -21,6 +22,49 @@ Theorem c20_typed_cast : forall (a : ast) (i : nat) (ty v : Z),
   a_cast a i ty = Some v <-> exists r, aslot a i = Some (r, ty, v).
 Proof. exact a_cast_spec. Qed.
 Print Assumptions c20_typed_cast.
+
+(* c20_typed_every_type: "typed access returns the value last stored" for EVERY type tag of the table (okty: 18 payload types of
+   sizeof 1, 4, 8, 9, 12, 15, 16, 24, 32, 40 - in place, heap, and the sizes between one and two words): after ANY history, storing
+   T(v) in holder i by the typed constructor or the typed operator= makes value_cast<T>(h[i]) yield v (normalised to the type's value
+   range) and every other type a type error; a copy of that holder into another one (operator= / copy construction) and the other side
+   of a swap yield v for T and a type error otherwise; no error flag.  The tag never enters the argument: value semantics are
+   type-independent (the representation is whatever `stored_inplace` says). *)
+Theorem c20_typed_every_type : forall (H M : nat) (tys : list Z) (ops : list op) (i ty v : Z) (o : op),
+  okh H i = true -> okty ty = true -> o = OAssignVal i ty v \/ o = OConsVal i ty v ->
+  let s := final H M tys (ops ++ [o]) in
+  err s = false /\
+  fst (cast s (hslot i) ty) = Some (norm ty v) /\
+  (forall ty', ty' <> ty -> fst (cast s (hslot i) ty') = None) /\
+  (forall j c, okh H j = true -> j <> i ->
+     c = OAssign j i \/ c = OConsCopy j i \/ c = OSwap i j \/ c = OSwap j i ->
+     let s' := final H M tys ((ops ++ [o]) ++ [c]) in
+     err s' = false /\ fst (cast s' (hslot j) ty) = Some (norm ty v) /\
+     (forall ty', ty' <> ty -> fst (cast s' (hslot j) ty') = None)).
+Proof. exact last_stored_every_type. Qed.
+Print Assumptions c20_typed_every_type.
+
+(* non-vacuity: all 18 tags satisfy okty; a 12-byte payload (tag 12) stored, copied, swapped with an in-place int, written, re-assigned *)
+Example c20_every_tag_ok : forallb okty [0; 1; 2; 3; 4; 5; 6; 7; 8; 9; 10; 11; 12; 13; 14; 15; 16; 17] = true /\ okty 18 = false /\ okty (-1) = false.
+Proof. exact every_tag_ok. Qed.
+Example c20_twelve_bytes_instance :
+  let s := final 3 0 [] [OAssignVal 0 12 345; OConsCopy 1 0; OAssignVal 2 7 5; OSwap 0 2; OSetVal 2 346; OAssign 0 1] in
+  err s = false /\ size_of 12 = 12 /\
+  fst (cast s (hslot 0) 12) = Some 345 /\ fst (cast s (hslot 1) 12) = Some 345 /\ fst (cast s (hslot 2) 12) = Some 346 /\
+  fst (cast s (hslot 2) 7) = None /\ fst (cast s (hslot 0) 14) = None.
+Proof. exact twelve_bytes_instance. Qed.
+
+(* c20_in_place_only_if_fits: `in_place` is generated from the predicate of detail::vtable<T>() (value_store.h); the in-place table
+   placement-constructs the object into the holder's single word (8 bytes on the LP64 target), so for ALL sizes the rule may select it
+   only when the object fits.  Holds for `sizeof(T) <= sizeof(void-ptr)` (and for stricter rules); fails for a rule that admits a
+   bigger size, e.g. `sizeof(T)/sizeof(void-ptr) <= 1` (true for 9..15) - then C20/Fits.v and this file stop compiling. *)
+Theorem c20_in_place_only_if_fits : forall s : Z, 0 < s -> in_place s 8 = true -> s <= 8.
+Proof. exact in_place_only_if_fits. Qed.
+Print Assumptions c20_in_place_only_if_fits.
+(* ... and for the model's type table: whatever the model stores in place fits into the word *)
+Theorem c20_stored_inplace_fits : forall ty : Z, stored_inplace ty = true -> size_of ty <= PTR_SIZE.
+Proof. exact stored_inplace_fits. Qed.
+Example c20_in_place_nonvacuous : in_place 1 8 = true /\ in_place 4 8 = true /\ stored_inplace 7 = true /\ stored_inplace 6 = true.
+Proof. exact in_place_nonvacuous. Qed.
 
 (* the member-call composition with operator='s temporary ValueStore is the client-level one-liner *)
 Theorem c20_typed_spec : forall (H M : nat) (tys : list Z) (a : ast) (o : op),
@@ -73,19 +117,65 @@ Example c20_valuemap_guard_needed :
   slot s (mslot 0 0) = HHeap 4 0 /\ err s = false /\ err (p_clear (mslot 0 0) (vs_assimilate (mslot 0 0) 0 s)) = true.
 Proof. exact assimilate_own_pointer_errs. Qed.
 
-(* c20_refcount: after every history over any number of SharedOptPtr variables and containers (OptionGroup, ParsedValues,
-   OptionContext) no dead option was touched, a live option's refCount_ is the number of its holders (>= 1), an option without holder
-   has been destroyed exactly once; when every holder is gone every option has been destroyed exactly once. *)
+(* c20_refcount: after every history over any number of SharedOptPtr variables, containers (OptionGroup, ParsedValues,
+   OptionContext) and client handle copies - single operations and "k holders at once" - in which no option ever has refcount_bound
+   or more simultaneous holders between two operations (`hist_within`: one spare, because operator= counts the new reference
+   before it releases the old one; refcount_bound = the range of the counter's declared type and of the types its value is returned
+   through, generated from refcountable.h): no dead option was touched and no counter operation left the range of its type
+   (`rerr`), a live option's refCount_ is EXACTLY the number of its holders (>= 1, no wrap), an option without holder has been
+   destroyed exactly once; when every holder is gone every option has been destroyed exactly once. *)
 Theorem c20_refcount : forall (S_ C_ : nat) (ops : list rop),
+  hist_within S_ C_ (rinit S_ C_) ops ->
   let s := snd (rrun_ops S_ C_ (rinit S_ C_) ops) in
   let f := rfinish S_ C_ s in
   rerr s = false /\
   (forall o x, nth_error (opts s) o = Some x ->
-     (o_dc x = 0 /\ o_rc x = holders s o /\ 1 <= holders s o) \/ (o_dc x = 1 /\ holders s o = 0)) /\
+     (o_dc x = 0 /\ o_rc x = holders s o /\ 1 <= holders s o <= refcount_bound) \/ (o_dc x = 1 /\ holders s o = 0)) /\
   rerr f = false /\
   (forall o x, nth_error (opts f) o = Some x -> o_dc x = 1).
 Proof. exact refcount_main. Qed.
 Print Assumptions c20_refcount.
+
+(* every count from 0 up to refcount_bound is stored in refCount_ without wrap-around or undefined overflow, is what release() returns
+   (so `release() == 0` holds exactly at the last holder) and is what refCount() / count() report *)
+Theorem c20_refcount_counter_exact : forall v : Z, 0 <= v <= refcount_bound ->
+  rc_store v = (v, false) /\ rc_rel v = v /\ rc_obs v = v /\ rc_cnt v = v.
+Proof. exact rc_exact. Qed.
+Print Assumptions c20_refcount_counter_exact.
+
+(* The bound covers every number of holders below "exhaustion of memory": a holder is a live SharedOptPtr object, i.e. at least one
+   pointer (8 bytes on the LP64 target; an entry of ParsedValues is 40 bytes), so 2^31 simultaneous holders of ONE option occupy
+   >= 16 GiB in handle words alone.  With `int refCount_` (and int-returning addRef/release/refCount/count) refcount_bound is
+   2^31-1; a narrower declared type (e.g. unsigned short: 65535) makes this theorem fail - the obligation that ties the model's
+   range to the header. *)
+Theorem c20_refcount_range_sufficient : 2 ^ 31 - 1 <= refcount_bound.
+Proof. exact refcount_range_sufficient. Qed.
+Print Assumptions c20_refcount_range_sufficient.
+
+(* the model's counter really has the declared range: the first value beyond it is not stored exactly *)
+Theorem c20_refcount_range_tight : rc_store (refcount_max + 1) <> (refcount_max + 1, false).
+Proof. exact refcount_range_tight. Qed.
+
+(* non-vacuity of `hist_within` at the magnitude in question: 70302 simultaneous holders of one option *)
+Example c20_refcount_many_holders :
+  hist_within 1 2 (rinit 1 2) many_holders /\
+  holders (snd (rrun_ops 1 2 (rinit 1 2) (firstn 4 many_holders))) 0 = 70302 /\
+  holders (snd (rrun_ops 1 2 (rinit 1 2) many_holders)) 0 = 101.
+Proof. exact many_holders_within. Qed.
+
+(* the bulk operations of the case alphabet are the k-fold iteration of the single operation (so c20_refcount speaks about k real
+   handle copies, k occurrences of an option in one parsed text, k adds to a context ...): a collecting container (OptionGroup,
+   ParsedValues) or the pool, an OptionContext (registers an option once), the pool dropping its newest k handles *)
+Theorem c20_refcount_bulk_is_iteration : forall (S_ C_ : nat) (s : rst) (c i : Z) (n : N),
+  length (conts s) = S C_ -> Z.of_N n <= BULK_MAX ->
+  ((c =? Z.of_nat C_) || negb (ckind c =? 2) = true ->
+     rstep S_ C_ s (RPushN c i (Z.of_N n)) = N.iter n (fun t => rstep S_ C_ t (RPushN c i 1)) s) /\
+  (okc C_ c = true -> (ckind c =? 2) = false -> rstep S_ C_ s (RPushN c i 1) = rstep S_ C_ s (RPush c i)) /\
+  (okc C_ c = true -> (ckind c =? 2) = true ->
+     rstep S_ C_ s (RPushN c i (Z.of_N n)) = N.iter n (fun t => rstep S_ C_ t (RPush c i)) s) /\
+  rstep S_ C_ s (RPopN (Z.of_N n)) = N.iter n (fun t => rstep S_ C_ t (RPopN 1)) s.
+Proof. exact bulk_is_iteration. Qed.
+Print Assumptions c20_refcount_bulk_is_iteration.
 
 (* observation outside the preconditions (client obligation, notes/C20.md): ValueMap::clear() while a NotifiedValue stays bound,
    then a second parse of that option = write through the address of a destroyed object (reproduced on the real code under ASan). *)
